@@ -160,6 +160,7 @@ type G struct {
 	started bool
 	stack   []*frame
 	vc      vclock // happens-before vector clock (race.go)
+	waitTimers []*chanV // unfired timer channels this goroutine is blocked on
 }
 
 func (m *Machine) abort(format string, args ...interface{}) {
